@@ -34,7 +34,7 @@ def run_case_for(own):
         out = Outcome()
         if spec["params"]["scheduler_algo"] == "verif-tape":
             tape_sched.ensure_registered()
-            tape_sched.set_tape(spec["tape"])
+            tape_sched.set_tape(spec["tape"], spec.get("eager_ram"))
         rec, params = run_sim(spec)
         c = common_labels(out, spec, rec)
         out.label("full_simulation")
